@@ -20,12 +20,16 @@ def main():
     py, xs, lits = seeds.all_seeds()
     o = ("c02",)
     pycommon.b_full(chk, o, 2 if chk.quick else 3, python_only=True)
+    ref = seeds.grammar_programs("reference", 4 if chk.quick else 10, chk.seed)
+    chk.extra["reference_grammar_programs"] = len(ref)
+    pycommon.k0_texts(chk, o, ref, "reference-grammar derivations k=0", wall=150 if chk.quick else 900, vac=("ok",))
+    pycommon.b_holes(chk, o, seeds.sample(chk.rng, ref, 80 if chk.quick else 1500), 2 if chk.quick else 0, wall=120 if chk.quick else 2400, name="B-holes k=1 on reference derivations")
     ep = seeds.expr_product()
     pycommon.k0_texts(chk, o, ep, "expression kinds x positions k=0", wall=150 if chk.quick else 900, vac=("ok", "SyntaxError"))
     pycommon.indent_skeleton(chk, o, 5 if chk.quick else 6, pycommon.CORE_OPTS, wall=150 if chk.quick else 1500)
     pycommon.indent_skeleton(chk, o, 2 if chk.quick else 3, pycommon.RICH_OPTS, wall=120 if chk.quick else 1500, label="rich")
     if chk.quick:
-        pycommon.b_holes(chk, o, [s for s in seeds.PY_SNIPPETS if len(s) < 60], 0, wall=200, insert=True, name="B-holes insert k=1")
+        pycommon.b_holes(chk, o, [s for s in seeds.PY_SNIPPETS if len(s) < 60], 4, wall=120, insert=True, name="B-holes insert k=1")
         pycommon.b_holes(chk, o, seeds.sample(chk.rng, py, 80), 3, wall=120)
         pycommon.a_holes(chk, o, seeds.sample(chk.rng, py, 40) + seeds.sample(chk.rng, lits, 30), 3, wall=100)
         cut_src = [s for s in seeds.sample(chk.rng, py, 40) if len(s) < 120]
